@@ -131,24 +131,32 @@ def integral_check(m, a, b, kde, what):
     pa, pb = f(m, 'cumulative_distribution', np.array([a, b]))
     if not (pb - pa > 1e-6) or not np.isfinite([a, b]).all():
         return 'skipped'
+    pd_ = {} if kde else value(m.to_dict, what='to_dict')
+    mag = abs(float(pd_.get('loc', 0.0))) + abs(float(pd_.get('scale', 0.0)))
+    if (b - a) < 1e6 * np.finfo(float).eps * max(abs(a), abs(b), mag):
+        return 'skipped'                 # the interval is at the floating-point resolution of x
+    shapes = [float(pd_[k]) for k in ('a', 'b', 'c', 'df') if k in pd_ and inner_name(m) != 'TruncatedGaussian']
+    extreme = any((v > 1e5) or (v < 0.05) for v in shapes)
     nk = 513 if kde else 129
     tot = {}
-    for name, count in (('fine', 2 * nk - 1), ('coarse', nk)):
+    for name, count, rule in (('fine', 2 * nk - 1, GL20), ('coarse', nk, GL20), ('fine10', 2 * nk - 1, GL10)):
         qs = np.linspace(pa, pb, count)[1:-1]
         qs = qs[(qs > EPS32 * 2) & (qs < 1 - EPS32 * 2)]
         knots = f(m, 'percent_point', qs) if len(qs) else np.array([])
         knots = np.unique(np.concatenate(([a], knots[(knots > a) & (knots < b)], [b])))
         lo, hi = knots[:-1], knots[1:]
         half, mid = (hi - lo) / 2, (hi + lo) / 2
-        xs, ws = GL20
+        xs, ws = rule
         pts = mid[:, None] + half[:, None] * xs[None, :]
         vals = f(m, 'probability_density', pts.ravel()).reshape(pts.shape)
         vals = np.where(np.isfinite(vals), vals, 0.0)           # integrable endpoint singularities (beta a<1)
         tot[name] = float(np.sum(half * (vals @ ws)))
     tot['20'] = tot['fine']
-    est = abs(tot['fine'] - tot['coarse'])
+    est = max(abs(tot['fine'] - tot['coarse']), abs(tot['fine'] - tot['fine10']))
     if est > 1e-6:
         return 'inconclusive'
+    if extreme:
+        est += 1e-6                      # scipy special functions at extreme shape parameters
     gap = abs(tot['20'] - (pb - pa))
     require(gap <= 1e-6 + 10 * est, '%s: integral of probability_density over [%r, %r] is %.8f but the CDF increment is %.8f'
             % (what, a, b, tot['20'], pb - pa), tag='pdf-integral', detail={'a': float(a), 'b': float(b)})
@@ -203,22 +211,30 @@ def oracle(case):
     with np.errstate(invalid='ignore'):
         mono = (x[1:] >= x[:-1]) | (x[1:] - x[:-1] >= -1e-9 * max(1.0, abs(lo), abs(hi)))
     require(np.all(mono), '%s: percent_point decreases: q=%r -> x=%r' % (what, q, x), tag='ppf-monotone')
-    zone = (q <= EPS32) | (q >= 1 - EPS32) if kde else np.zeros(len(q), dtype=bool)
+    # KDE design: the CDF is net of the kernel mass outside [min-5std, max+5std] (<= 1e-5), and probabilities it cannot
+    # reach map to -inf/+inf.  An infinite answer is therefore admissible only within 1e-5 of 0 or 1.
     if kde:
-        require(np.all(x[q <= EPS32] == -np.inf) or np.all(np.isfinite(x[q <= EPS32])), '%s: inconsistent lower clipping' % what, tag='ppf-clip')
+        zone = ((q <= 1e-5) & (x == -np.inf)) | ((q >= 1 - 1e-5) & (x == np.inf))
+    else:
+        zone = np.zeros(len(q), dtype=bool)
     chk = ~zone & (q > 0) & (q < 1)
     if chk.any():
         xc, qc = x[chk], q[chk]
         require(np.all(np.isfinite(xc)), '%s: percent_point(%r) = %r for a probability strictly inside (0,1)' % (what, qc[~np.isfinite(xc)][:3], xc[~np.isfinite(xc)][:3]),
                 tag='ppf-infinite')
-        below = f(m, 'cumulative_distribution', np.nextafter(xc, -np.inf))
-        above = f(m, 'cumulative_distribution', np.nextafter(xc, np.inf))
         dens_c = f(m, 'probability_density', xc)
         dens_c = np.where(np.isfinite(dens_c), dens_c, 0.0)
         pd_ = {} if kde else value(m.to_dict, what='to_dict')
         mag = abs(float(pd_.get('loc', 0.0))) + abs(float(pd_.get('scale', 0.0)))
-        # x = loc + scale*z carries an absolute rounding error ~ eps*(|loc|+|scale|), i.e. eps*(...)*pdf in probability
-        tol = 1e-9 + (1e-9 * rng * dens_c if kde else 16 * np.finfo(float).eps * (mag + np.abs(xc)) * dens_c)
+        shapes = [float(pd_[k]) for k in ('a', 'b', 'c', 'df') if k in pd_ and name != 'TruncatedGaussian']
+        extreme = any((v > 1e5) or (v < 0.05) for v in shapes)
+        if extreme:
+            cls.append('extreme-shape-parameters')      # scipy special functions lose accuracy: only weak checks
+        # "continuous at floating point resolution": neighbours at the resolution of x = loc + scale*z
+        delta = 8 * np.finfo(float).eps * np.maximum(np.abs(xc), mag)
+        below = f(m, 'cumulative_distribution', xc - delta)
+        above = f(m, 'cumulative_distribution', xc + delta)
+        tol = (1e-9 + 1e-9 * rng * dens_c) if kde else (1e-9 if not extreme else 1e-5)
         bad = (below - tol > qc) | (above + tol < qc)
         require(not bad.any(), '%s: percent_point(%r)=%r but cdf just below/above is %r / %r' % (what, qc[bad][:2], xc[bad][:2], below[bad][:2], above[bad][:2]),
                 tag='ppf-inverse')
